@@ -203,6 +203,10 @@ func Random(g *gen.G, cur *sbom.NodeList, kinds []Kind, sh gen.Shape) *Op {
 		for i := 0; i < n; i++ {
 			o.IDs = append(o.IDs, anyID())
 		}
+		if g.Chance(0.25) {
+			// names no node of the list: nothing to remove, the result is still to be normalised
+			o.IDs = []string{"no-such-node", "nor-this-one"}[:1+g.Int(2)]
+		}
 	case RelateNode:
 		id := gen.Pick(g, gen.IDPool)
 		if g.Chance(sh.OddIDs) {
